@@ -189,11 +189,9 @@ pub(crate) fn calculate_max_input(output_len: usize) -> usize {
 }
 
 fn write_chunk(input: &[u8], input_used: &mut usize, w: &mut Writer, max_chunk: usize) -> bool {
-    // TODO(martin): Redo this to  try and calculate a perfect fit of the
-    // input into the output.
-
-    // 5 is the smallest possible overhead
-    let available = w.available().saturating_sub(5);
+    // The largest chunk that fits the output together with its size line
+    // and the two \r\n.
+    let available = max_chunk_fit(w.available(), max_chunk);
 
     let to_write = input.len().min(max_chunk).min(available);
 
@@ -219,6 +217,29 @@ fn write_chunk(input: &[u8], input_used: &mut usize, w: &mut Writer, max_chunk: 
 
     // write another chunk?
     success && input.len() > to_write
+}
+
+/// The largest chunk length, capped by `max_chunk`, that fits in `available` output bytes.
+///
+/// A chunk of length `n` needs: `n` in hex, `\r\n`, the `n` bytes of data and `\r\n`.
+fn max_chunk_fit(available: usize, max_chunk: usize) -> usize {
+    let mut best = 0;
+
+    // Number of hex digits in the size line.
+    let mut digits = 1;
+    // The smallest chunk length that requires that number of digits.
+    let mut lowest = 1;
+
+    while lowest <= max_chunk && lowest + digits + 4 <= available {
+        // The largest chunk length with this number of digits.
+        let highest = lowest * 16 - 1;
+        best = highest.min(available - digits - 4);
+
+        digits += 1;
+        lowest *= 16;
+    }
+
+    best
 }
 
 #[derive(Clone, Copy, PartialEq, Eq)]
